@@ -101,10 +101,11 @@ c.lemma("entry", "powmod_exp_mul", "h", "r", "self.q", "self.p")
 c.lemma("entry", "fermat", "h", "self.p")
 c.lemma("entry", "powmod_zero", "h", "r", "self.p")
 c.lemma("entry", "powmod_zero", "spec.powmod(h, r, self.p)", "self.q", "self.p")
-c.raises("AssertionError", "h == 0", name="no-element", tags="C14")
+c.raises("AssertionError", "h == 0 or spec.powmod(h, r, self.p) == 1", name="no-element", tags="C14")
 c.ensures("result._group is self", name="group", tags="C14")
 c.ensures("result._e == spec.ae(self, seed)", name="val", tags="C14 C03")
 c.ensures("spec.insub(self, result._e)", name="member", tags="C14 C04 C18")
+c.ensures("result._e != spec.O(self)", name="non-identity", tags="C14 C18")
 c.canary("result._e == spec.powmod(h, r + 1, self.p)")
 
 # ---- the element API of integer groups refines EltSpec ---------------------------------------------------------------
@@ -141,3 +142,11 @@ c.ensures("self.p == p and self.q == q and self.Base._e == g and self.Zero._e ==
 c.ensures("self.Base._group is self and self.Zero._group is self", name="elements-of-self", tags="C18")
 c.ensures("self.scalar_size_bytes == spec.size_bytes(q) and self.element_size_bytes == spec.size_bytes(p) and self.element_size_bits == spec.size_bits(p)", name="sizes", tags="C18 C15")
 c.ensures("spec.powmod(g, q, p) == 1", name="order-divides-q", tags="C18")
+
+c = REG.contract(E + ".__eq__")
+c.params(self="obj:" + E, other="obj:%s;_group=$self._group" % E).returns("bool").pure()
+c.ensures("result == (self._e == other._e)", name="value-equality", tags="C13")
+
+c = REG.contract(E + ".__ne__")
+c.params(self="obj:" + E, other="obj:%s;_group=$self._group" % E).returns("bool").pure()
+c.ensures("result == (self._e != other._e)", name="value-inequality", tags="C13")
